@@ -107,34 +107,12 @@ func TestExplore(t *testing.T) {
 	boundOverride, _ := strconv.Atoi(env("VBOUND", "-1"))
 	out := os.Getenv("VOUT")
 	var results []WorkerResult
-	var deadline, tupleDeadline time.Time
+	var deadline time.Time
 	if budget > 0 {
 		deadline = time.Now().Add(time.Duration(budget) * time.Second)
 	}
 	all := sc.AllParams(tier)
-	for pi, p := range all {
-		if only != "" && only != p.Name {
-			continue
-		}
-		if budget > 0 {
-			// budget policy: a tuple may use up to four times its fair share of what is left (small
-			// tuples finish early and give their share back), and never less than two seconds
-			left := time.Until(deadline)
-			if left < 0 {
-				left = 0
-			}
-			share := 4 * left / time.Duration(len(all)-pi)
-			if share > left {
-				share = left
-			}
-			if share < 2*time.Second {
-				share = 2 * time.Second
-			}
-			tupleDeadline = time.Now().Add(share)
-		}
-		if boundOverride >= 0 {
-			p.Bound = boundOverride
-		}
+	runTuple := func(p Param, tupleDeadline time.Time) WorkerResult {
 		t0 := time.Now()
 		res := WorkerResult{Scenario: name, Param: p.Name, Bound: p.Bound, Shard: shard, NShards: nshards}
 		ex := &vsched.Explorer{Bound: p.Bound, Shard: shard, NShards: nshards, Deadline: tupleDeadline}
@@ -164,9 +142,64 @@ func TestExplore(t *testing.T) {
 		res.Obs = ex.Stats.DistinctObs
 		res.Samples = ex.Stats.SampleSchedules
 		res.WallS = time.Since(t0).Seconds()
-		results = append(results, res)
 		t.Logf("%s/%s bound=%d shard=%d/%d execs=%d transitions=%d distinct=%d viol=%d capped=%q %.1fs",
 			name, p.Name, p.Bound, shard, nshards, ex.Stats.Executions, ex.Stats.Transitions, len(ex.Stats.DistinctObs), len(res.Violations), ex.Stats.Capped, res.WallS)
+		return res
+	}
+	var ran []Param
+	for pi, p := range all {
+		if only != "" && only != p.Name {
+			continue
+		}
+		var tupleDeadline time.Time
+		if budget > 0 {
+			// budget policy, first pass: a tuple may use up to four times its fair share of what is
+			// left (small tuples finish early and give their share back), and never less than two
+			// seconds
+			left := time.Until(deadline)
+			if left < 0 {
+				left = 0
+			}
+			share := 4 * left / time.Duration(len(all)-pi)
+			if share > left {
+				share = left
+			}
+			if share < 2*time.Second {
+				share = 2 * time.Second
+			}
+			tupleDeadline = time.Now().Add(share)
+		}
+		if boundOverride >= 0 {
+			p.Bound = boundOverride
+		}
+		results = append(results, runTuple(p, tupleDeadline))
+		ran = append(ran, p)
+	}
+	// second pass: whatever is left of the budget goes to the tuples that were cut short, in
+	// order, each getting an equal part of the remainder (the level-by-level search starts again;
+	// the deeper of the two results is kept)
+	if budget > 0 {
+		var capped []int
+		for i, r := range results {
+			if r.Stats.Capped != "" && len(r.Violations) == 0 && r.HarnessErr == "" {
+				capped = append(capped, i)
+			}
+		}
+		for k, i := range capped {
+			left := time.Until(deadline)
+			if left < 10*time.Second {
+				break
+			}
+			share := left / time.Duration(len(capped)-k)
+			if prev := time.Duration(results[i].WallS * float64(time.Second)); share < 2*prev {
+				continue // not enough to get further than the first pass did
+			}
+			r2 := runTuple(ran[i], time.Now().Add(share))
+			if r2.Stats.BoundCompleted >= results[i].Stats.BoundCompleted || len(r2.Violations) > 0 {
+				r2.WallS += results[i].WallS
+				results[i] = r2
+			}
+		}
 	}
 	if out != "" {
 		b, _ := json.Marshal(results)
